@@ -601,7 +601,7 @@ def run(ctx):
     if ctx.replay:
         cases = [json.load(open(ctx.replay))['case']]
     else:
-        nvalid = int(os.environ.get('VERIF_C17_N', ctx.scale(30, 800)))
+        nvalid = int(os.environ.get('VERIF_C17_N', ctx.scale(45, 800)))
         cases += [gen_case(rng) for _ in range(nvalid)]
         for kind, n in (('eol', ctx.scale(3, 40)), ('lumped', ctx.scale(3, 40)), ('att_in', ctx.scale(3, 40)),
                         ('voa_margin', ctx.scale(4, 60)), ('raman', ctx.scale(3, 40))):
